@@ -6,7 +6,8 @@ spelling of an expression) differs from the intended statement without violating
 difference therefore counts as a failing input only if the two statements also EVALUATE differently, by the
 reference evaluator (`Sql.evalStatement`, total: unknown functions and columns become symbolic terms), on one of
 a handful of small databases synthesised for the tables and columns the two statements mention (NULLs,
-duplicates, empty tables, integers and strings).  Results are compared as lists when the intended statement
+duplicates, empty tables, integers and strings); number literals are compared by VALUE (`2.50` = `2.5e-0`), and when the two statements
+do not use the same uninterpreted function symbols nothing is concluded.  Results are compared as lists when the intended statement
 ends in an ORDER BY, as bags otherwise.  Executable, used by the driver only (no theorem mentions it).
 -/
 import PqlModel.Spec.Sql.Eval
@@ -82,9 +83,113 @@ def bagEq (a b : List (List Val)) : Bool :=
 def tableSame (ordered : Bool) (a b : Table) : Bool :=
   a.cols == b.cols && (if ordered then a.rows == b.rows else bagEq a.rows b.rows)
 
+/-! ### numbers by value, uninterpreted functions -/
+
+/-- `digits [. digits] [(e|E) [+|-] digits]` as mantissa × 10^exponent with a mantissa not divisible by 10
+    (0 as (0, 0)); `none` for any other text -/
+def numParts (t : Bytes) : Option (Nat × Int) :=
+  let isD (c : UInt8) : Bool := 48 ≤ c.toNat && c.toNat ≤ 57
+  let ip := t.takeWhile isD
+  let r1 := t.dropWhile isD
+  let (fp, r2) := match r1 with
+    | 46 :: r => (r.takeWhile isD, r.dropWhile isD)
+    | _ => ([], r1)
+  let ex : Option Int := match r2 with
+    | [] => some 0
+    | c :: r =>
+      if c == 101 || c == 69 then
+        let (neg, ds) := match r with | 45 :: d => (true, d) | 43 :: d => (false, d) | d => (false, d)
+        if ds.isEmpty || !ds.all isD then none
+        else let n : Nat := ds.foldl (fun a d => a * 10 + (d.toNat - 48)) 0; some (if neg then - (n : Int) else n)
+      else none
+  if ip.isEmpty then none else
+  match ex with
+  | none => none
+  | some e =>
+    let m : Nat := (ip ++ fp).foldl (fun a d => a * 10 + (d.toNat - 48)) 0
+    if m == 0 then some (0, 0) else
+    let rec strip : Nat → Nat → Int → Nat × Int
+      | 0, m, e => (m, e)
+      | f + 1, m, e => if m % 10 == 0 then strip f (m / 10) (e + 1) else (m, e)
+    some (strip (ip.length + fp.length) m (e - fp.length))
+
+/-- a number literal's text replaced by a canonical text of its VALUE (`2.50`, `2.5e-0`, `25e-1` are one number) -/
+def canonNum (t : Bytes) : Bytes :=
+  match numParts t with
+  | none => t
+  | some (m, e) =>
+    if e ≥ 0 ∧ e ≤ 40 then Bytes.ofString (toString (m * 10 ^ e.toNat))
+    else Bytes.ofString (toString m ++ "e" ++ toString e)
+
+def interpretedFns : List Bytes := ["coalesce", "lower", "upper", "count", "sum", "min", "max"].map Bytes.ofString
+
+mutual
+/-- numbers canonicalised -/
+def canonE : SExpr → SExpr
+  | .num t => .num (canonNum t)
+  | .call fn st args fl => .call fn st (canonEL args) (canonE fl)
+  | .case_ a b c => .case_ (canonE a) (canonE b) (canonE c)
+  | .neg x => .neg (canonE x)
+  | .pos x => .pos (canonE x)
+  | .not_ x => .not_ (canonE x)
+  | .bin op x y => .bin op (canonE x) (canonE y)
+  | .isNull x n => .isNull (canonE x) n
+  | .inList x vs => .inList (canonE x) (canonEL vs)
+  | .index x i => .index (canonE x) (canonE i)
+  | e => e
+def canonEL : SExprList → SExprList
+  | .nil => .nil
+  | .cons e es => .cons (canonE e) (canonEL es)
+end
+
+mutual
+/-- function symbols the reference evaluator does not interpret (they evaluate to symbolic terms) -/
+def unknownFns : SExpr → List Bytes
+  | .call fn _ args fl => (if interpretedFns.contains (lowerB fn) then [] else [lowerB fn]) ++ unknownFnsL args ++ unknownFns fl
+  | .case_ a b c => unknownFns a ++ unknownFns b ++ unknownFns c
+  | .neg x => unknownFns x
+  | .pos x => unknownFns x
+  | .not_ x => unknownFns x
+  | .bin _ x y => unknownFns x ++ unknownFns y
+  | .isNull x _ => unknownFns x
+  | .inList x vs => unknownFns x ++ unknownFnsL vs
+  | .index x i => unknownFns x ++ unknownFns i
+  | _ => []
+def unknownFnsL : SExprList → List Bytes
+  | .nil => []
+  | .cons e es => unknownFns e ++ unknownFnsL es
+end
+
+def mapSel (f : SExpr → SExpr) (s : Select) : Select :=
+  { s with
+    items := s.items.map fun it => { it with expr := f it.expr }
+    join := s.join.map fun j => { j with on := f j.on }
+    where_ := s.where_.map f
+    groupBy := s.groupBy.map f
+    orderBy := s.orderBy.map fun o => { o with expr := f o.expr }
+    limit := s.limit.map f }
+
+def canonStmt (st : Statement) : Statement := ⟨st.ctes.map fun c => (c.1, mapSel canonE c.2), mapSel canonE st.body⟩
+
+def selExprs (s : Select) : List SExpr :=
+  s.items.map (·.expr) ++ (match s.join with | some j => [j.on] | none => []) ++ s.where_.toList ++ s.groupBy ++
+  s.orderBy.map (·.expr) ++ s.limit.toList
+
+def stmtUnknownFns (st : Statement) : List Bytes :=
+  (((stmtSelects st).flatMap selExprs).flatMap unknownFns).eraseDups
+
+/-- the two statements use the same uninterpreted function symbols: only then does a different result of the
+    reference evaluator say anything (a rewrite INTO a dialect function the evaluator does not know cannot be judged) -/
+def comparable (got want : Statement) : Bool :=
+  let a := stmtUnknownFns got; let b := stmtUnknownFns want
+  a.all b.contains && b.all a.contains
+
 /-- the seed of a synthesised database on which the two statements evaluate differently, if one of the first
     `n` has that effect -/
 def differOn (n : Nat) (got want : Statement) : Option Nat :=
+  if !comparable got want then none else
+  let got := canonStmt got
+  let want := canonStmt want
   let tables := ((stmtTables got ++ stmtTables want).eraseDups)
   let cols := (((stmtSelects got ++ stmtSelects want).flatMap selColNames).eraseDups)
   let cols := if cols.isEmpty then [[97]] else cols
@@ -103,4 +208,17 @@ def sameMeaningWhere (got want : SExpr) : Bool :=
             groupBy := [], orderBy := [], limit := none }⟩
   sameMeaning (mk got) (mk want)
 
+end Pql.Sql
+
+namespace Pql.Sql
+#guard canonNum (Bytes.ofString "2.50") == canonNum (Bytes.ofString "2.5e-0")
+#guard canonNum (Bytes.ofString "25e-1") == canonNum (Bytes.ofString "2.5")
+#guard canonNum (Bytes.ofString "7.0") == Bytes.ofString "7"
+#guard canonNum (Bytes.ofString "1e3") == Bytes.ofString "1000"
+#guard canonNum (Bytes.ofString "0.0") == Bytes.ofString "0"
+#guard canonNum (Bytes.ofString "1e400") != canonNum (Bytes.ofString "0.0")
+#guard canonNum (Bytes.ofString "0.1234567890123456789") != canonNum (Bytes.ofString "0.12345678901234568")
+#guard canonNum (Bytes.ofString "007") == Bytes.ofString "7"
+#guard canonNum (Bytes.ofString "1.") == Bytes.ofString "1"
+#guard canonNum (Bytes.ofString "0x1F") == Bytes.ofString "0x1F"
 end Pql.Sql
